@@ -13,7 +13,7 @@ import hv
 from hv import Case
 
 SPEC = {
-    "lean_modules": ["Honeycomb.Props.C12"],
+    "lean_modules": ["Honeycomb.Props.C12", "Honeycomb.Props.C12b"],
     "gen": ["grid"],
     "required_theorems": [
         "C12_grid2_WF", "C12_grid2_beta2", "C12_grid2_darts", "C12_grid2_faces", "C12_grid2_corners",
@@ -25,6 +25,10 @@ SPEC = {
         "C12_build2_forms_agree", "C12_build3_forms_agree",
         "C12_build2_ok", "C12_build2_total", "C12_build2_split_total",
         "C12_build2_zero_count_empty", "C12_build2_zero_count_forms", "C12_build3_zero_count_empty",
+        "C12_hex3_vertices", "C12_hex3_corners", "C12_hex3_slots", "C12_hex3_volumes",
+        "C12_grid2_counts", "C12_split2_counts", "C12_hex3_counts",
+        "C12_build2_split_ok", "C12_build2_split_total_wf", "C12_build3_ok", "C12_build3_total",
+        "C12_ceil_count_rounding", "C12_ceil_count_exact",
     ],
     "trusted_base": [
         "Lean 4.33 kernel; axioms propext, Classical.choice, Quot.sound only",
@@ -48,15 +52,15 @@ SPEC = {
 }
 
 SPEC["not_proved"] = [
-    "C12_build2_split_ok / C12_build3_ok: the mirrored debug_assert on iter_faces().count() = 2*nx*ny / "
-    "iter_volumes().count() = nx*ny*nz never fires (proved for the plain 2-D grid: C12_build2_ok); the cycle/cell "
-    "structure is proved, the id-based counts are compared on the box",
-    "C12_hex3_vertices: vertex coordinates and the (nx+1)(ny+1)(nz+1) lattice bijection for the hex grid "
-    "(3-D vertex_id walk + generate_hex_offset decoding); validated on the box",
-    "C12_hex3_volumes_connected: the 24 darts of a cell are connected through beta1/beta2 (closure under "
-    "beta0,beta1,beta2 and the cell partition are proved); volume count validated on the box via iter_volumes",
-    "floating point: all coordinate statements are over Rat; the tie uses dyadic values for which f64 is exact; "
-    "ceil on non-representable quotients is outside (DESIGN.md par. 9)",
+    "floating point: all coordinate statements are over Rat; the tie uses dyadic values for which every f64 operation "
+    "of the builders is exact. For the form len_per_cell + lens the count is ceil(rnd(L/l)): C12_ceil_count_rounding "
+    "proves, for ANY monotone rounding rnd fixing the integers, that the count is ceil(L/l) or ceil(L/l)-1 and is exact "
+    "iff rnd(L/l) > ceil(L/l)-1 (always when L/l is representable: l a power of two, L an exact multiple, ...); that "
+    "IEEE-754 round-to-nearest division IS such a rnd (monotone, exact on integers < 2^53) is not proved in Lean "
+    "(no IEEE model installed, DESIGN.md par. 9/11) and stays covered by the oracle on dyadic inputs only",
+    "3-D hex grid: number of edges and of faces yielded by iter_edges / iter_faces (the two-sided face_id walk); "
+    "vertices, volumes, gluing, positions and well-formedness are proved, these two counts are compared on the box",
+    "u32/usize wrap-around for grids with 2^32 darts or more is not modelled",
 ]
 
 
